@@ -310,7 +310,7 @@ type FailCase struct {
 func genFail(t *rapid.T) FailCase {
 	good := []string{"a: {b: 1}\n", "a: {b: 2}\nc: 3\n", "a: {b: 1}\n---\na: {b: 5}\n", "- 1\n- 2\n"}
 	pick := func() string { return rapid.SampledFrom(good).Draw(t, "good") }
-	c := FailCase{Kind: rapid.SampledFrom([]string{"parse", "eval_doc_k", "decode_doc_k", "missing_file", "encode", "bad_flag_value", "eval_error_fn", "decode_op_doc_k", "decode_format"}).Draw(t, "kind")}
+	c := FailCase{Kind: rapid.SampledFrom([]string{"parse", "eval_doc_k", "decode_doc_k", "missing_file", "encode", "bad_flag_value", "eval_error_fn", "decode_op_doc_k", "decode_format", "bad_args"}).Draw(t, "kind")}
 	out := rapid.SampledFrom([]string{"", "-o=json", "-o=yaml", "-o=props", "-N", "-r"}).Draw(t, "flag")
 	mode := rapid.SampledFrom([]string{"", "ea"}).Draw(t, "mode")
 	if mode != "" {
@@ -399,6 +399,16 @@ func genFail(t *rapid.T) FailCase {
 		}
 		c.Args = append(c.Args, "-p="+bad[0], "-o=json", "--expression", ".")
 		c.Files = []string{bad[1]}
+	case "bad_args":
+		// flag combinations that need a file, given none (stdin is not piped): a usage error, not a crash
+		c.Args = rapid.SampledFrom([][]string{{"-i", ".a = 3"}, {"ea", "-i", ".a = 3"}, {"--front-matter=process", ".t = 1"}, {"ea", "--front-matter=extract", "."}, {"-n", "-i", ".a = 1"},
+			{"-i", "-s", ".a", "."}, {"-i"}, {"-i", "--expression", ".a = 1"}, {"-n", ".a = 1", "WITHFILE"}}).Draw(t, "badargs")
+		c.Files = nil
+		if c.Args[len(c.Args)-1] == "WITHFILE" {
+			// -n together with a file
+			c.Args = c.Args[:len(c.Args)-1]
+			c.Files = []string{pick()}
+		}
 	case "missing_file":
 		c.Args = append(c.Args, "--expression", ".")
 		c.Files = []string{pick()}
@@ -583,7 +593,9 @@ func checkN(c NCase) hx.Verdict {
 type ACase struct {
 	Ext   string `json:"ext"`
 	Upper bool   `json:"upper"`
-	Out   string `json:"out,omitempty"` // an explicit -o next to the automatic input format
+	Out   string `json:"out,omitempty"`   // an explicit -o next to the automatic input format
+	Stem  string `json:"stem,omitempty"`  // file name before the extension (it may hold the name of another format)
+	Stdin bool   `json:"stdin,omitempty"` // `-` (YAML on stdin) is given before the file: the first input decides the formats
 }
 
 var samples = map[string]string{
@@ -602,6 +614,9 @@ func checkA(c ACase) hx.Verdict {
 	format := extFormat[c.Ext]
 	dir := workdir()
 	name := "sample"
+	if c.Stem != "" && c.Ext != "" {
+		name = c.Stem // (with no extension of its own the stem's last part would be one)
+	}
 	ext := c.Ext
 	if c.Upper {
 		ext = strings.ToUpper(ext)
@@ -622,6 +637,17 @@ func checkA(c ACase) hx.Verdict {
 	}
 	if auto.Exit != explicit.Exit || auto.Stdout != explicit.Stdout {
 		return hx.Bad("", "auto-detected formats for %s differ from -p=%s -o=%s: exit %d %q vs exit %d %q (stderr %q)", name, format, format, auto.Exit, clip(auto.Stdout), explicit.Exit, clip(explicit.Stdout), clip(auto.Stderr))
+	}
+	if c.Stdin {
+		// `yq . - file`: the first input is stdin, which has no extension: YAML in, YAML out, whatever the file is called
+		a := run([]string{".", "-", p}, []byte("fromstdin: 1\n"))
+		b := run([]string{"-p=yaml", "-o=yaml", ".", "-", p}, []byte("fromstdin: 1\n"))
+		if crashed(a) {
+			return hx.Bad("panic-site:binary", "yq crashed on `. - %s`: %.300s", name, a.Stderr)
+		}
+		if a.Exit != b.Exit || a.Stdout != b.Stdout {
+			return hx.Bad("", "`yq . - %s` (YAML on stdin first) differs from the same with -p=yaml -o=yaml: exit %d %q (stderr %q) vs exit %d %q", name, a.Exit, clip(a.Stdout), clip(a.Stderr), b.Exit, clip(b.Stdout))
+		}
 	}
 	if c.Out != "" {
 		// an explicit output format stands, whatever the extension says about the input
@@ -667,7 +693,9 @@ func TestProp(t *testing.T) {
 		}, checkN),
 		hx.NewSub("autodetect", 200, 1500, func(t *rapid.T) ACase {
 			return ACase{Ext: rapid.SampledFrom(exts).Draw(t, "ext"), Upper: rapid.Bool().Draw(t, "upper"),
-				Out: rapid.SampledFrom([]string{"", "json", "j", "yaml", "yml", "y", "props", "properties", "p", "xml", "x", "shell", "sh", "s", "lua", "l", "csv", "c", "tsv", "t", "toml"}).Draw(t, "out")}
+				Stem:  rapid.SampledFrom([]string{"", "", "settings.json", "application.properties", "pom.xml", "v1.x", "data.csv", "a.b.c", "x.yaml", ".hidden"}).Draw(t, "stem"),
+				Stdin: rapid.IntRange(0, 3).Draw(t, "stdinfirst") == 0,
+				Out:   rapid.SampledFrom([]string{"", "json", "j", "yaml", "yml", "y", "props", "properties", "p", "xml", "x", "shell", "sh", "s", "lua", "l", "csv", "c", "tsv", "t", "toml"}).Draw(t, "out")}
 		}, checkAWrap),
 	)
 }
